@@ -93,8 +93,18 @@ class World:
     def initial(self):
         snapshot.REGISTRY.reset()
         if self.uses_sandbox:
+            sandbox.invalidate()
             sandbox.restore(())
-        return self.build()
+        snapshot.set_consts(())
+        canon.reset_consts()
+        st = self.build()
+        snapshot.set_consts(self.consts(st))
+        sandbox.invalidate()
+        return st
+
+    def consts(self, st) -> list:
+        """Configuration objects (never mutated by the code under test): pickled by reference."""
+        return []
 
     def key(self, st) -> bytes:
         tree = sandbox.tree() if self.uses_sandbox else ()
@@ -140,7 +150,9 @@ def expand(world: World, blob: bytes, pre_key: bytes):
             continue
         for ev in group:
             st = world.restore(blob)
+            sandbox.invalidate()
             obs = world.apply(st, ev)
+            sandbox.invalidate()
             viols = world.check(st, ev, obs)
             k = world.key(st)
             stutter = k == pre_key and world.quiet(obs) and not viols
@@ -171,6 +183,7 @@ def _pool_expand(chunk):
     out = []
     for idx, blob, k in chunk:
         out.append((idx, expand(_W, blob, k)))
+        canon.verify_consts()
     return out
 
 
@@ -202,7 +215,9 @@ def replay_path(world: World, path, want_key=None, want_digests=None):
     st = world.initial()
     trace = []
     for i, ev in enumerate(path):
+        sandbox.invalidate()
         obs = world.apply(st, ev)
+        sandbox.invalidate()
         trace.append((ev, obs))
         if want_digests is not None and obs_digest(obs) != want_digests[i]:
             raise HarnessError(
@@ -316,6 +331,7 @@ def explore(world: World, *, max_states=2_000_000, max_depth=None, procs=1, vali
                                   **detail)
                     res.violations.append((v, entry, cyc_events, "cycle"))
 
+        canon.verify_consts()
         # root-replay validation: terminals, violating states, stride of interior states
         to_validate = set(terminal_idx[:200])
         to_validate.update(i for (_, i, _, _) in res.violations)
